@@ -22,35 +22,35 @@ TEXT = {
 
 TEXT["C17"] = {
     "technique": "property-based testing (rapid) + exhaustive BMP/special-triple sweep + native fuzzing; round-trip through independent decoders and reference implementations",
-    "text": "Each of the nine escaping filters is applied, through ApplyFilter and through template syntax (both must agree), to generated strings and to an exhaustive sweep (every BMP scalar as a 1-rune string; all strings up to length 3 over 11 specials). Oracle per filter in both directions: forbidden characters absent, and an independent decoder (HTML entity, JS \\uXXXX incl. surrogate pairs, query decoding) or reference implementation (iriencode, addslashes, striptags, removetags) reproduces the input / expected text. Exploration-level assurance.",
+    "text": "Each of the nine escaping filters is applied, through ApplyFilter and through template syntax (both must agree; the filtered output stands directly in an autoescape-off region or inside a for / with / set / macro / if written there), to generated strings and to an exhaustive sweep (every BMP scalar as a 1-rune string; all strings up to length 3 over 11 specials). Oracle per filter in both directions: forbidden characters absent, and an independent decoder (HTML entity, JS \\uXXXX incl. surrogate pairs, query decoding) or reference implementation (iriencode, addslashes, striptags, removetags) reproduces the input / expected text. Exploration-level assurance.",
     "note": "Trusted: the small reference decoders in harness/props/c17_test.go. escapejs' pinned treatment of the two-character sequences \\n, \\r and of invalid UTF-8 is accepted as specified behaviour.",
     "design_ref": "DESIGN.md section 3, C17",
 }
 
 TEXT["C18"] = {
     "technique": "property-based testing (rapid) + exhaustive integer-argument windows; differential against independent reference functions and shape predicates",
-    "text": "34 data filters and the widthratio tag are run (ApplyFilter and template syntax, which must agree) on generated strings, sequences of every sliceable kind (incl. by-value and pointer arrays), numbers and times, and on exhaustive windows (slice bounds -8..8 squared plus blanks over lengths 0..6 and 7 sequence kinds; widths/lengths -3..20 over strings of 0..12 runes; word counts; digit positions; divisors). Results are compared with small independent reference functions (Python slicing, rune-based sequence operations, decimal rounding on the decimal string, ...) or with the shape predicate the property states. Exploration-level assurance. widthratio is also run over float arguments up to 1e308 against exact rational arithmetic.",
+    "text": "34 data filters and the widthratio tag are run (ApplyFilter and template syntax, which must agree) on generated strings, sequences of every sliceable kind (incl. by-value and pointer arrays), numbers and times, and on exhaustive windows (slice bounds -8..8 squared plus blanks over lengths 0..6 and 7 sequence kinds; widths/lengths -3..20 over strings of 0..12 runes; word counts; digit positions; divisors). Results are compared with small independent reference functions (Python slicing, rune-based sequence operations, decimal rounding on the decimal string, ...) or with the shape predicate the property states. Exploration-level assurance. widthratio is also run over float arguments up to 1e308 against exact rational arithmetic. Where input and parameter can be written as template literals a third route renders them as literals: it must agree, and a float literal must be the float64 nearest to it (stringformat:\"%.17g\").",
     "note": "Trusted: the reference functions in harness/props/c18_test.go. Fixture-pinned deviations from Django are accepted (listed in the evidence assumptions). Not covered: phone2numeric, title, urlize*, linebreaks, random, truncate*_html (not named by the property).",
     "design_ref": "DESIGN.md section 3, C18",
 }
 
 TEXT["C07"] = {
     "technique": "property-based testing (rapid) + bounded exhaustive enumeration of expression trees; differential against an independent evaluator of the generated tree",
-    "text": "Well-typed expression trees are generated (random to depth 7; exhaustively all trees with up to 2 binary operators over 9 leaves with unary operators at every node, up to 3 binary operators over 4 leaves in the thorough tier), printed with minimal parentheses according to the stated precedence/associativity plus random spellings, spacing and redundant parentheses, rendered as {{ e }} and {% if e %}, and compared with an independent evaluator of the tree (int64 wrap-around, truncated division, float promotion, concatenation, short-circuit; division/modulo by zero must be an execution error and only then). Exploration-level assurance inside the stated fragment.",
+    "text": "Well-typed expression trees are generated (random to depth 7; exhaustively all trees with up to 2 binary operators over 9 leaves with unary operators at every node, up to 3 binary operators over 4 leaves in the thorough tier), printed with minimal parentheses according to the stated precedence/associativity plus random spellings, spacing and redundant parentheses, rendered as {{ e }} and {% if e %}, and compared (operands include context variables of every integer width, string literals spelling signs / operators / keywords, membership in typed lists, in a []any of mixed integer kinds and in array literals whose items are expressions) with an independent evaluator of the tree (int64 wrap-around, truncated division, float promotion, concatenation, short-circuit; division/modulo by zero must be an execution error and only then). Exploration-level assurance inside the stated fragment.",
     "note": "Trusted: the tree evaluator and the minimal-parenthesis printer in harness/props/c07_test.go. Outside the fragment (see assumptions in the evidence file) nothing is asserted.",
     "design_ref": "DESIGN.md section 3, C07",
 }
 
 TEXT["C14"] = {
     "technique": "property-based testing (rapid) with per-program fault enumeration; differential between the four Execute entry points and recording / failing writers",
-    "text": "For every generated multi-file program the number T of evaluated tick() outputs is measured and every fault position k in 1..T is injected (fault enumeration, cap 40), plus a caller's writer that fails after 0/1/mid/len-1 bytes. Execute, ExecuteBytes, ExecuteWriter (into io.Writer, *bytes.Buffer and *strings.Builder) and ExecuteWriterUnbuffered must agree on bytes and error text; ExecuteWriter must have written nothing on failure; the unbuffered writer must hold a prefix of the fault-free output; the writer's error must be returned (errors.Is) also when the writer reports it together with progress; ExecuteWriterUnbuffered as first execution of a fresh template must already agree; a fault-free run after the failures must reproduce the original bytes.",
+    "text": "For every generated multi-file program the number T of evaluated tick() outputs is measured and every fault position k in 1..T is injected (fault enumeration, cap 40), plus a caller's writer that fails after 0/1/mid/len-1 bytes. Execute, ExecuteBytes, ExecuteWriter (into io.Writer, *bytes.Buffer and *strings.Builder) and ExecuteWriterUnbuffered must agree on bytes and error text (all of them are handed the same lists, maps and structs, as a caller's context would); ExecuteWriter must have written nothing on failure; the unbuffered writer must hold a prefix of the fault-free output; the writer's error must be returned (errors.Is) also when the writer reports it together with progress; ExecuteWriterUnbuffered as first execution of a fresh template must already agree; a fault-free run after the failures must reproduce the original bytes.",
     "note": "Trusted: recording/failing writers and the tick() fault injector of the harness. Faults other than an erroring context function (e.g. panicking user code) are not injected.",
     "design_ref": "DESIGN.md section 3, C14",
 }
 
 TEXT["C15"] = {
     "technique": "property-based testing (rapid); metamorphic relation marked-document vs hand-stripped document, reference implementation for spaceless",
-    "text": "Generated documents (with includes) whose literal text carries random whitespace runs around constructs, every delimiter independently marked with '-', under all four TrimBlocks x LStripBlocks settings, are rendered and compared byte for byte with the same document from which exactly the named whitespace was deleted by hand, compiled with everything off; documents are single files, files with includes, or two-level hierarchies, and in a quarter of the cases the options are set per template (tpl.Options) with the hand-stripped reference compiled in the same set. spaceless is compared with an independent fixed-point implementation of 'remove exactly the whitespace runs between two tags' over bodies with stray angle brackets, multi-line tags and context-supplied markup. C15.sides checks that a '-' does on its side exactly what it does alone, over text with ASCII and Unicode whitespace.",
+    "text": "Generated documents (with files pulled in by include or ssi parsed) whose literal text carries random whitespace runs around constructs, every delimiter independently marked with '-', under all four TrimBlocks x LStripBlocks settings, are rendered and compared byte for byte with the same document from which exactly the named whitespace was deleted by hand, compiled with everything off; documents are single files, files with includes, or two-level hierarchies, and in a quarter of the cases the options are set per template (tpl.Options) with the hand-stripped reference compiled in the same set. spaceless is compared with an independent fixed-point implementation of 'remove exactly the whitespace runs between two tags' over bodies with stray angle brackets, multi-line tags and context-supplied markup. C15.sides checks that a '-' does on its side exactly what it does alone, over text with ASCII and Unicode whitespace.",
     "note": "Trusted: the hand-stripping function (c15Strip) and refSpaceless in harness/props/c15_test.go. Verbatim next to markers, comments next to markers/block tags, and option handling across extends are deliberately outside (see evidence assumptions).",
     "design_ref": "DESIGN.md section 3, C15",
 }
@@ -64,7 +64,7 @@ TEXT["C16"] = {
 
 TEXT["C04"] = {
     "technique": "property-based testing (rapid) over execution histories; differential: shared compiled template vs freshly compiled template per execution",
-    "text": "Generated deterministic multi-file programs over every tag are compiled once and executed 2-6 times with contexts drawn from a pool (equal contexts recur; the same names carry different Go types), through randomly chosen entry points (Execute, ExecuteBytes, ExecuteWriter, ExecuteWriterUnbuffered, ExecuteBlocks), with failing executions mixed in (injected function errors, invalid context keys, division by a zero variable), under both TrimBlocks/LStripBlocks settings. Each (output, error text) is compared with executing the same context on a freshly compiled template that is used exactly once. Exploration-level assurance; the static 'for all reachable functions' facet is not decided.",
+    "text": "Generated deterministic multi-file programs over every tag are compiled once and executed 2-6 times with contexts drawn from a pool (equal contexts recur; the same names carry different Go types), through randomly chosen entry points (Execute, ExecuteBytes, ExecuteWriter, ExecuteWriterUnbuffered, ExecuteBlocks), with failing executions mixed in (injected function errors, invalid context keys, division by a zero variable), under both TrimBlocks/LStripBlocks settings. Each (output, error text) is compared with executing the same context on a freshly compiled template that is used exactly once; the byte slices ExecuteBytes handed out are read again after the whole history. Exploration-level assurance; the static 'for all reachable functions' facet is not decided.",
     "note": "Trusted: determinism of the generated programs and of the harness' context values. State that an execution leaves behind but that never influences a later output or error is invisible to this oracle.",
     "design_ref": "DESIGN.md section 3, C04",
 }
@@ -78,35 +78,35 @@ TEXT["C05"] = {
 
 TEXT["C20"] = {
     "technique": "model-based stateful property testing (rapid state machine) with concurrent batches, plain and under the race detector; map model with loader fetch counters",
-    "text": "rapid's state-machine mode drives 1-2 template sets over 3 names (through aliases resolving to the same file) with FromCache, CleanCache(all / names), Debug toggles, content changes, unloadable files and concurrent batches (k=2-16 goroutines behind a barrier issuing the same FromCache: exactly one fetch and one instance; mixed FromCache/CleanCache batches: order-independent bounds), compared after every step with a map model that tracks the cached instance, its content generation and the loader's fetch counters; sets carry different globals, options and bans, and every cached entry of every set must survive operations on the other set. Run plain and with -race.",
+    "text": "rapid's state-machine mode drives 1-2 template sets over 3 names (through aliases resolving to the same file) with FromCache, CleanCache(all / names), Debug toggles, content changes, unloadable files and concurrent batches (k=2-16 goroutines behind a barrier issuing the same FromCache: exactly one fetch and one instance; mixed FromCache/CleanCache batches: order-independent bounds), compared after every step with a map model that tracks the cached instance, its content generation and the loader's fetch counters; sets carry different globals, options and bans, and every cached entry of every set must survive operations on the other set; a global of the DEFAULT set must stay invisible in all of them. Run plain and with -race. C20.composed runs histories over names that are made of each other (base, children, grandchild, page + included part, importer + macro library): a cached entry keeps rendering what it was compiled from, whatever is compiled, cached or cleaned around it.",
     "note": "Trusted: the recording loader and the model in harness/props/c20_test.go. Interleavings inside batches are sampled. Concurrent toggling of Debug is outside the property (documented as caller-synchronised).",
     "design_ref": "DESIGN.md section 3, C20",
 }
 
 TEXT["C03"] = {
     "technique": "property-based testing (rapid) + enumeration of (target x route) + model-based call histories; observable probe tag/filter, differential banned-set vs unbanned-set",
-    "text": "Every registered tag and filter (read through the registry hook, plus a probe tag and probe filter whose parsing/execution is counted) is banned in one set and used through generated routes: 24 expression positions x nested statement bodies (14 kinds, depth <= 3) x 9 file-composition routes (includes static/nested/lazy, extends parent/child, imported macro, ssi parsed). The template must fail to compile (lazy include: to execute), the probe counters must stay zero, a banned include must fetch nothing, the same template must be usable in an unbanned set, and an unbanned twin must render identically in both sets. All targets x single-wrapper routes x file routes are enumerated. Call histories over Ban*/From*/Render*/probes on two sets are compared with a (banned tags, banned filters, frozen) model.",
+    "text": "Every registered tag and filter (read through the registry hook, plus a probe tag and probe filter whose parsing/execution is counted) is banned in one set and used through generated routes: 24 expression positions x nested statement bodies (14 kinds, depth <= 3) x 9 file-composition routes (includes static/nested/lazy, extends parent/child, imported macro, ssi parsed). The template must fail to compile (lazy include: to execute), the probe counters must stay zero, a banned include must fetch nothing, the same template must be usable in an unbanned set, and an unbanned twin must render identically in both sets. All targets x single-wrapper routes x file routes are enumerated. Call histories over Ban*/From*/Render*/probes on two sets are compared with a (banned tags, banned filters, frozen) model. C03.concurrent lets a ban arrive while the first template is being compiled; C03.creators lets 2-8 goroutines create the first templates of a banned set at once by every route (also under the race detector).",
     "note": "Trusted: the probe registration and the route table in harness/props/c03_test.go. Syntax forms that are invalid today are only covered where listed as speculative routes.",
     "design_ref": "DESIGN.md section 3, C03",
 }
 
 TEXT["C10"] = {
     "technique": "property-based testing (rapid); differential against a reference resolution of the generated hierarchy",
-    "text": "Generated inheritance chains of 1-5 templates in an in-memory loader (different directories, rooted and relative parent names) with random block sets per level (override with Super any number of times and in any position, inherit, add, nest, text outside blocks; base blocks nested in blocks, in live/dead if-branches and in for-loops). Every level is rendered twice and compared with an independent reference resolution (most-derived definition wins; Super = next less-derived definition, empty at the base; levels above the rendered one do not exist); the base is rendered before and after its children were compiled. Ten invalid shapes must fail to compile, directly or through another extends. Loops iterate over distinct letters and definitions print the loop variable (Super must show the current iteration); afterwards any level is fetched in any order with FromCache / FromFile on a fresh set.",
+    "text": "Generated inheritance chains of 1-5 templates in an in-memory loader (different directories, rooted and relative parent names) with random block sets per level (override with Super any number of times and in any position, inherit, add, nest, text outside blocks; base blocks nested in blocks, in live/dead if-branches and in for-loops). Every level is rendered twice and compared with an independent reference resolution (most-derived definition wins; Super = next less-derived definition, empty at the base; levels above the rendered one do not exist); the base is rendered before and after its children were compiled. Thirteen invalid shapes (a second extends naming another or the same parent, nested extends, duplicate blocks, ...) must fail to compile, directly or through another extends; every level is also rendered through a page that includes it. Loops iterate over distinct letters and definitions print the loop variable (Super must show the current iteration); afterwards any level is fetched in any order with FromCache / FromFile on a fresh set.",
     "note": "Trusted: the reference resolver c10Ref. Hierarchies in which blocks contain each other are excluded (no defined rendering).",
     "design_ref": "DESIGN.md section 3, C10",
 }
 
 TEXT["C12"] = {
     "technique": "property-based testing (rapid); differential against a reference environment (scope) model, plus deep before/after comparison of caller data",
-    "text": "Generated nestings of with / for / macro / set / if / include over four deliberately colliding names, with a probe {{ name }} after every construct and inside every body and the same names present in Context and Globals, are rendered and compared with an independent reference interpreter that implements the scoping rules of the property. After every execution the caller's Context and the set's Globals are compared (reflect.DeepEqual, nested maps and slices included) with freshly built copies. Malformed keys and keys clashing with an exported macro must be rejected by every entry point without output.",
+    "text": "Generated nestings of with / for / macro / set / if / include over four deliberately colliding names, with a probe {{ name }} after every construct and inside every body and the same names present in Context and Globals, are rendered and compared with an independent reference interpreter that implements the scoping rules of the property. After every execution the caller's Context and the set's Globals are compared (reflect.DeepEqual, nested maps and slices included) with freshly built copies. Malformed keys and keys clashing with an exported macro must be rejected by every entry point without output, also when added to a map that was valid and executed before. A third of the macros are imported from a library file, and every compiled template is rendered again with the same context, with other values under the same names and with the first context.",
     "note": "Trusted: the reference interpreter in harness/props/mm_test.go and the value builder. Mutation of values reachable only through functions or pointers is not observed.",
     "design_ref": "DESIGN.md section 3, C12",
 }
 
 TEXT["C09"] = {
     "technique": "property-based testing (rapid); differential against a reference interpreter of the generated tag tree",
-    "text": "Generated nestings (depth <= 4) of if/elif/else, ifequal/ifnotequal, firstof, for (+empty, reversed, sorted, key/value over sorted maps), cycle (plain/as/silent) and ifchanged over generated lists, strings (multi-byte), maps, nil and scalars are rendered once on a fresh compile and compared with an independent reference interpreter that implements the semantics stated by the property, including every forloop field and Parentloop chain inside bodies and inside empty branches.",
+    "text": "Generated nestings (depth <= 4) of if/elif/else, ifequal/ifnotequal, firstof, for (+empty, reversed, sorted, key/value over sorted maps), cycle (plain/as/silent) and ifchanged over generated lists (typed, []any, written as array literals naming enclosing loop variables, integers beyond 2^53), strings (multi-byte), maps (string, int and any keys), nil and scalars are rendered once on a fresh compile and compared with an independent reference interpreter that implements the semantics stated by the property, including every forloop field and Parentloop chain inside bodies and inside empty branches.",
     "note": "Trusted: the reference interpreter in harness/props/mm_test.go. ifchanged inside nested loops and unsorted map iteration are outside the asserted fragment (see evidence assumptions).",
     "design_ref": "DESIGN.md section 3, C09",
 }
@@ -120,14 +120,14 @@ TEXT["C13"] = {
 
 TEXT["C08"] = {
     "technique": "property-based testing (rapid); differential against a reference resolver that walks the typed value descriptor",
-    "text": "Random nested context values (string- and int-keyed maps, []any, typed slices, arrays by value and by pointer, structs by value / pointer / nil pointer with exported, unexported, embedded, pointer and any-typed fields, value- and pointer-receiver methods, variadic and error-returning methods, functions of every accepted signature shape) are combined with access paths generated by walking the descriptor - valid ones and ones with a wrong turn (missing key, unexported field, out-of-range / negative index through a variable, step on nil, step on a scalar, wrong arity or argument type, failing function, call of a non-function) - and observed through {{ p }}, {{ p|length }} and {% if p %}. A reference resolver over the descriptor predicts value / empty / execution error; every template is evaluated twice. C08.hetero applies one parsed path inside a loop to values of different Go types with overlapping member names and compares with element-wise resolution. Shadowing (tag bindings over context over globals) is checked on fixed templates and, more broadly, by C12. A generated shadowing spec (C08.shadow) binds one name in any subset of globals / context and through 0-4 nested tags and reads it directly or inside included templates.",
+    "text": "Random nested context values (string- and int-keyed maps, []any, typed slices, arrays by value and by pointer, structs by value / pointer / nil pointer with exported, unexported, embedded, pointer and any-typed fields, value- and pointer-receiver methods, variadic and error-returning methods, functions of every accepted signature shape) are combined with access paths generated by walking the descriptor - valid ones and ones with a wrong turn (missing key, unexported field, out-of-range / negative index through a variable, step on nil, step on a scalar, wrong arity or argument type, failing function, call of a non-function) - and observed through {{ p }}, {{ p|length }} and {% if p %}. A reference resolver over the descriptor predicts value / empty / execution error; every template is evaluated twice. C08.hetero applies one parsed path inside a loop to values of different Go types with overlapping member names and compares with element-wise resolution. Shadowing (tag bindings over context over globals) is checked on fixed templates and, more broadly, by C12. A generated shadowing spec (C08.shadow) binds one name in any subset of globals / context and through 0-4 nested tags and reads it directly or inside included templates. C08.named resolves methods, keys and indexes of values of named non-struct types (named slice, map, int64, string, float64) reached directly, through pointers, struct fields, maps and lists, with right and wrong arguments; C08.blockname reads the name block (block.Super) at every place of a block's body against context entries and globals of that name.",
     "note": "Trusted: the reference resolver c08Resolve and the value builder. Behaviours the property leaves open are discarded (listed in the evidence assumptions).",
     "design_ref": "DESIGN.md section 3, C08",
 }
 
 TEXT["C19"] = {
-    "technique": "property-based testing (rapid); differential between template syntax at 20 positions and left-to-right composition of the public ApplyFilter",
-    "text": "Chains of 0-4 deterministic registered filters with literal, context, dotted-path and enclosing-scope parameters are written at 19 expression positions (output, if/elif, for-in, with, set, include-with, firstof, ifequal, widthratio, macro argument/default, subscript, cycle, ifchanged, operands of + and unary minus, and the filter tag with five body kinds) and compared with the left-to-right fold of ApplyFilter over the same values; a failing fold requires an execution error. Unregistered filter / tag names are planted at every position and must fail compilation (filter tag: at the latest execution, without output). Registering any registered name again must be refused and leave the first implementation in effect; a fresh name is accepted once.",
+    "technique": "property-based testing (rapid); differential between template syntax at 27 positions and left-to-right composition of the public ApplyFilter",
+    "text": "Chains of 0-4 deterministic registered filters with literal, context, dotted-path and enclosing-scope parameters are written at 27 expression positions (output, if/elif, for-in, with, set, include-with, firstof, ifequal, widthratio, macro argument/default - also where the surrounding scope binds the parameter's name -, subscript, cycle, ifchanged, operands of +, unary minus, ==, in and not, items of an array literal, function-call arguments, and the filter tag with several body kinds) and compared with the left-to-right fold of ApplyFilter over the same values; a failing fold requires an execution error. Unregistered filter / tag names are planted at every position and must fail compilation (filter tag: at the latest execution, without output). Registering any registered name again must be refused and leave the first implementation in effect; a fresh name is accepted once.",
     "note": "Trusted: the public Value API used for observation. Filters are compared with themselves (ApplyFilter) here; what each filter computes is C17/C18's concern.",
     "design_ref": "DESIGN.md section 3, C19",
 }
@@ -141,14 +141,14 @@ TEXT["C11"] = {
 
 TEXT["C02"] = {
     "technique": "property-based testing (rapid) with taint markers + exhaustive filter x input x form sweep; non-interference oracle on the output bytes",
-    "text": "Opt-out-free programs over the whole tag / filter / operator vocabulary (filters drawn from the registry hook, so new ones are covered) are rendered against a context in which every string leaf - map values and keys, slice items, struct fields, []any items, function / method / (T, error) results, Stringers on struct, int and pointer receivers, defined string types, *string - is a marker carrying all five HTML specials, while template text and literals carry none. After deleting the five entities and the engine's constant '<type Value>' renderings, the output must contain none of < > & ' \" : any survivor originated in the context. Every registered filter is additionally applied to 13 tainted inputs in 14 forms, exhaustively.",
+    "text": "Opt-out-free programs over the whole tag / filter / operator vocabulary (filters drawn from the registry hook, so new ones are covered) are rendered against a context in which every string leaf - map values and keys, slice items, struct fields, []any items, function / method / (T, error) results, Stringers on struct, int and pointer receivers, defined string types, *string - is a marker carrying all five HTML specials, while template text and literals carry none. After deleting the five entities and the engine's constant '<type Value>' renderings, the output must contain none of < > & ' \" : any survivor originated in the context. Every registered filter is additionally applied to 13 tainted inputs in 14 forms, exhaustively. C02.partial writes an opt-out on a harmless part (a literal with |safe, a macro result, a Go-side safe value) next to tainted text in 28 forms x 9 inputs x 6 safe parts, exhaustively: an opt-out covers only what it is written on.",
     "note": "Trusted: the marker construction and the whitelist regexes in harness/props/c02_test.go. Opt-outs named by the property are excluded by construction.",
     "design_ref": "DESIGN.md section 3, C02",
 }
 
 TEXT["C01"] = {
     "technique": "property-based testing (rapid) over grammar programs, token-mutated programs and lexeme soup + native coverage-guided fuzzing of raw bytes; crash / hang detection with a write-ahead journal",
-    "text": "Every case compiles and (if that succeeds) executes a generated template against a context holding the whole value universe of the property (also installed as Globals): grammar programs over every registered tag and filter (registry hook) with error-prone constructs, a crude grammar that mixes path steps, subscripts, calls and filters freely, random lexeme soup, and 1-3 token-level mutations of valid programs; in the thorough tier also raw bytes through Go's native fuzzer seeded with the repository's fixtures and hostile constants. The oracle is totality only: exactly one of (template, *Error) from compilation, Execute returns, no panic, the worker process survives (a death is attributed to the journalled case and confirmed in a fresh process), no case exceeds the hang bound. The set's entry point is part of the case: FromFile, FromCache, FromString, FromBytes, RenderTemplateFile/String/Bytes, ExecuteBlocks.",
+    "text": "Every case compiles and (if that succeeds) executes a generated template against a context holding the whole value universe of the property (also installed as Globals): grammar programs over every registered tag and filter (registry hook) with error-prone constructs, a crude grammar that mixes path steps, subscripts, calls and filters freely, random lexeme soup, and 1-3 token-level mutations of valid programs; in the thorough tier also raw bytes through Go's native fuzzer seeded with the repository's fixtures and hostile constants. The oracle is totality only: exactly one of (template, *Error) from compilation, Execute returns, no panic, the worker process survives (a death is attributed to the journalled case and confirmed in a fresh process), no case exceeds the hang bound. The set's entry point is part of the case: FromFile, FromCache, FromString, FromBytes, RenderTemplateFile/String/Bytes, ExecuteBlocks. A grid mode enumerates every registered filter x 10 typical inputs x 16 hostile parameters taken from the context (extreme integers of every width, infinities, NaN, nil, containers), in an output and in a filter tag.",
     "note": "Trusted: the harness' own context functions (total by construction) and the journal / confirmation logic of the driver. Absence of hangs only up to the generated sizes.",
     "design_ref": "DESIGN.md section 3, C01",
 }
